@@ -135,6 +135,8 @@ func init() {
 			fmt.Println(err)
 			os.Exit(2)
 		}
+		setInlinePolicy()
+		theProg = p
 		for _, pk := range p.ScopePkgs() {
 			for _, fn := range pkgFunctions(p, pk.PkgPath) {
 				if len(args) == 0 || !strings.Contains(funcName(fn), args[0]) {
@@ -181,6 +183,15 @@ func init() {
 				}
 			}
 			fmt.Println("WHEN", d.CondString(), "\n   =>", d.EndKind, strings.Join(rs, " , "))
+			if os.Getenv("VERIF_DEBUG") == "conds" {
+				for _, pc := range d.Conds {
+					at := "-"
+					if pc.At != nil {
+						at = fmt.Sprintf("%s b%d", pc.At.Parent().Name(), pc.At.Block().Index)
+					}
+					fmt.Printf("      %v %s   @ %s\n", pc.Truth, shorten(pc.Cond.String(), 80), at)
+				}
+			}
 		}
 	}
 }
